@@ -22,7 +22,7 @@ VARIABLES st, hist, n
 vars == <<st, hist, n>>
 
 SomeV(v) == [c |-> "some", v |-> v]
-GetterOutcomes == {Err(1), Absent, SomeV(3), SomeV(4)}
+GetterOutcomes == {Err(1), Err(100), Absent, SomeV(3), SomeV(4)}      \* 100 = the FromNone error (what a NoneToError stream hands on)
 SetErr == 7      \* the error a failing impl_set reports
 
 -----------------------------------------------------------------------------
